@@ -34,8 +34,14 @@ class Infra(Exception):
     pass
 
 
+def alt_build():
+    # runs against another tree (mutants, seeded changes) or with instrumentation get a build directory of their
+    # own, so that they can run next to an ordinary run of the same check without exchanging binaries
+    return REPO != "/repo" or bool(os.environ.get("VERIF_COVER_DIR"))
+
+
 def build_dir(pid):
-    b = os.path.join(VERIF, "build", pid)
+    b = os.path.join(VERIF, "build", pid + (".alt-%d" % os.getpid() if alt_build() else ""))
     os.makedirs(os.path.join(b, "bin"), exist_ok=True)
     return b
 
@@ -75,6 +81,11 @@ def go_build(b, pkgdir, out, test=True, race=False, tags="verif", fuzz=None, tim
         cmd += ["-tags", tags]
     if race:
         cmd += ["-race"]
+    if test and os.environ.get("VERIF_COVER_DIR"):
+        # blind-spot measurement (tools/coverage.py): statement coverage of /repo's own packages by the generated cases
+        # (explicit package list: the cover tool cannot read the overlaid zz_verif files)
+        pk = subprocess.run(["go", "list", "./..."], cwd=REPO, env=env, stdout=subprocess.PIPE, text=True).stdout.split()
+        cmd += ["-cover", "-coverpkg=" + ",".join(x for x in pk if "/zz_verif" not in x)]
     cmd += ["-modfile=" + os.path.join(b, "go.mod"), "-overlay=" + os.path.join(b, "overlay.json"),
             "-o", out, "./" + pkgdir + "/"]
     t0 = time.time()
@@ -141,6 +152,8 @@ def main():
     finally:
         if not a.keep:
             shutil.rmtree(scratch, ignore_errors=True)
+        if alt_build():
+            shutil.rmtree(build_dir(pid), ignore_errors=True)
 
 
 def run(pid, cfg, a, seed, scratch, t_start):
@@ -193,6 +206,9 @@ def run(pid, cfg, a, seed, scratch, t_start):
         env = dict(base_env, VERIF_SHARD=label, **env_extra)
         env["TMPDIR"] = os.path.join(cwd, "tmp")
         os.makedirs(env["TMPDIR"], exist_ok=True)
+        if os.environ.get("VERIF_COVER_DIR") and "-test.fuzz" not in args:
+            os.makedirs(os.environ["VERIF_COVER_DIR"], exist_ok=True)
+            args = args + ["-test.coverprofile", os.path.join(os.environ["VERIF_COVER_DIR"], "%s-%s.out" % (pid, label))]
         tasks.append((label, [binp] + args, cwd, env, timeout))
 
     if a.replay:
